@@ -354,7 +354,32 @@ func ZZ_C06_containers_more() {
 	var a, b interface{}
 	var want bool
 	name := ""
-	switch zz.Choose(12) {
+	switch zz.Choose(20) {
+	case 12:
+		// views of one backing array: equal only when they show the same elements
+		full := []interface{}{x1, x2, y1}
+		name, a, b, want = "prefix-of-the-same-array", full[0:2], full, false
+	case 13:
+		full := []interface{}{x1, x2, y1}
+		name, a, b, want = "empty-prefix-of-the-same-array", full[0:0], full, false
+	case 14:
+		full := []int64{x1, x2, y1}
+		name, a, b, want = "typed-prefixes-of-the-same-array", full[0:1], full[0:2], false
+	case 15:
+		full := []interface{}{x1, x2, y1, y2}
+		name, a, b, want = "windows-of-the-same-array", full[0:2], full[2:4], both
+	case 16:
+		full := []interface{}{x1, x2}
+		name, a, b, want = "the-same-slice-twice", full, full, true
+	case 17:
+		m := map[interface{}]interface{}{"k": x1}
+		name, a, b, want = "the-same-map-twice", m, m, true
+	case 18:
+		full := []interface{}{x1, x2, y1}
+		name, a, b, want = "same-array-views-nested", []interface{}{full[0:2]}, []interface{}{full}, false
+	case 19:
+		full := []interface{}{x1, x2, y1}
+		name, a, b, want = "same-length-windows-shifted", full[0:2], full[1:3], zz.And(x1 == x2, x2 == y1)
 	case 0:
 		name, a, b, want = "typed-slice", []int64{x1, x2}, []int64{y1, y2}, both
 	case 1:
